@@ -519,7 +519,12 @@ func (t *FnTrans) makeSlice(x *ssa.MakeSlice, st *HeapState, reach string) {
 		srt := arraySort("Int", arraySort(t.mode.idxSort(), es))
 		arr := t.heapGet(st, comp, srt)
 		zv := t.zeroVal(el)
-		t.heapSet(st, comp, srt, sx("store", arr, name, sx("(as const "+arraySort(t.mode.idxSort(), es)+")", zv.S)))
+		if es == "Iface" || es == "Str" {
+			// cvc5 accepts only value literals in constant arrays: leave the contents arbitrary
+			t.heapSet(st, comp, srt, sx("store", arr, name, t.declare(t.fresh("zeroarr"), arraySort(t.mode.idxSort(), es))))
+		} else {
+			t.heapSet(st, comp, srt, sx("store", arr, name, sx("(as const "+arraySort(t.mode.idxSort(), es)+")", zv.S)))
+		}
 	}
 	t.setVal(x, Val{K: VSlice, T: x.Type(), Sub: []Val{scalar(nil, name), scalar(nil, z), scalar(nil, ln), scalar(nil, cp)}})
 }
